@@ -10,6 +10,8 @@ mod read_bracket;
 mod read_symbol;
 mod read_charge;
 mod read_configuration;
+#[cfg(purr_verif)]
+pub(crate) mod depth;
 
 pub use read::read;
 pub use error::Error;
